@@ -112,7 +112,7 @@ type c24Batch struct {
 	released bool
 }
 
-func chClosed(c queue.FlushChannel) bool {
+func c24ChClosed(c queue.FlushChannel) bool {
 	select {
 	case <-c:
 		return true
@@ -247,7 +247,7 @@ func c24Run(c *core.Ctx, raw json.RawMessage) {
 			if w.fc == nil || len(w.objs) == 0 {
 				continue
 			}
-			if bi, ok := objBatch[w.objs[0]]; ok && bi == idx && !chClosed(w.fc) {
+			if bi, ok := objBatch[w.objs[0]]; ok && bi == idx && !c24ChClosed(w.fc) {
 				s.Violate("flush-not-closed", "write#%d (task %s) is in batch#%d which was released, but its flush channel is still open", w.id, w.task, idx)
 			}
 		}
@@ -303,7 +303,7 @@ func c24Run(c *core.Ctx, raw json.RawMessage) {
 		mu.Lock()
 		defer mu.Unlock()
 		for _, w := range writes {
-			if w.fc == nil || !chClosed(w.fc) {
+			if w.fc == nil || !c24ChClosed(w.fc) {
 				continue
 			}
 			ok := false
@@ -358,6 +358,10 @@ func c24Run(c *core.Ctx, raw json.RawMessage) {
 	}
 
 	finish := func() {
+		// a violation may have ended the run with writers still blocked inside
+		// Write (full queue, seqMu held): let the consumer drain them first
+		for i := 0; i < 2000 && !producersDone() && s.Step(); i++ {
+		}
 		close(stop)
 		s.Close()
 		q.Close()
@@ -490,7 +494,7 @@ func c24Run(c *core.Ctx, raw json.RawMessage) {
 		for _, w := range group {
 			gobjs = append(gobjs, w.objs...)
 		}
-		if len(group) == 0 || group[len(group)-1].seq != b.seq || !eqI64(gobjs, b.objs) {
+		if len(group) == 0 || group[len(group)-1].seq != b.seq || !c24EqI64(gobjs, b.objs) {
 			// classify: does some write straddle the batch boundary?
 			if len(b.objs) > 0 {
 				first, last := b.objs[0], b.objs[len(b.objs)-1]
@@ -505,7 +509,7 @@ func c24Run(c *core.Ctx, raw json.RawMessage) {
 					}
 				}
 			}
-			c.Violate("batch-seq-not-max", "batch#%d carries sequence number %d, but the writes whose objects it holds have numbers %v", bi, b.seq, seqsOfObjs(ws, b.objs))
+			c.Violate("batch-seq-not-max", "batch#%d carries sequence number %d, but the writes whose objects it holds have numbers %v", bi, b.seq, c24SeqsOfObjs(ws, b.objs))
 			return
 		}
 		if len(group) > sc.BatchSize {
@@ -524,7 +528,7 @@ func c24Run(c *core.Ctx, raw json.RawMessage) {
 	}
 	// every flush channel is closed now (all batches were released)
 	for _, w := range ws {
-		if w.fc != nil && !chClosed(w.fc) {
+		if w.fc != nil && !c24ChClosed(w.fc) {
 			c.Violate("flush-not-closed", "flush channel of write#%d never closed although every batch was released", w.id)
 			return
 		}
@@ -537,7 +541,7 @@ func c24Run(c *core.Ctx, raw json.RawMessage) {
 	c.Sig(fmt.Sprintf("%d/%d/%d", len(ws), len(batches), sizeFlush))
 }
 
-func eqI64(a, b []int64) bool {
+func c24EqI64(a, b []int64) bool {
 	if len(a) != len(b) {
 		return false
 	}
@@ -549,7 +553,7 @@ func eqI64(a, b []int64) bool {
 	return true
 }
 
-func seqsOfObjs(ws []*c24Write, objs []int64) []int64 {
+func c24SeqsOfObjs(ws []*c24Write, objs []int64) []int64 {
 	var out []int64
 	last := -1
 	for _, o := range objs {
